@@ -58,17 +58,18 @@ func init() {
 }
 
 type remRoles struct {
-	ConnT     *types.Named // tcp connection actor
-	ConnF     *types.Var   // net.Conn field
-	WriteLock *types.Var
-	ReadFn    *ssa.Function // frame reader (returns (bool, error))
-	EncodeLen *ssa.Function // builds prefix + payload
-	MboxT     *types.Named  // remoting mailbox
-	Enqueue   *ssa.Function
-	SendLoop  *ssa.Function // closure passed to the retry helper
-	Try       *ssa.Function
-	ConnCache *types.Var // Mailbox.connection
-	problems  []string
+	ConnT      *types.Named // tcp connection actor
+	ConnF      *types.Var   // net.Conn field
+	WriteLock  *types.Var
+	ReadFn     *ssa.Function // frame reader (returns (bool, error))
+	EncodeLen  *ssa.Function // builds prefix + payload
+	MboxT      *types.Named  // remoting mailbox
+	Enqueue    *ssa.Function
+	SendLoop   *ssa.Function // closure passed to the retry helper
+	Try        *ssa.Function
+	ConnCache  *types.Var // Mailbox.connection
+	problems   []string
+	condEvents []ssa.Instruction // calls in the frame reader to helpers that re-arm / kill on some paths only
 }
 
 var remCache = map[*Program]*remRoles{}
@@ -404,21 +405,37 @@ func c11ReadAhead(p *Program, r *Report) {
 // rearmNodes / killNodes / eofEdges of the frame reader.
 func (p *Program) readerEvents(rm *remRoles) (g *IG, rearm, kill map[int]bool, eof map[edge]bool) {
 	g = p.ig(rm.ReadFn)
-	rearm = nodesWhere(g, func(in ssa.Instruction) bool {
+	isRearm := func(in ssa.Instruction) bool {
 		c := callOf(in)
 		if c == nil || !c.IsInvoke() || c.Method.Name() != "TellSelf" || len(c.Args) != 1 {
 			return false
 		}
 		return anyContains(p.origins(c.Args[0]), "."+rm.ConnF.Name()+"<-")
-	})
-	kill = nodesWhere(g, func(in ssa.Instruction) bool {
+	}
+	isKill := func(in ssa.Instruction) bool {
 		c := callOf(in)
 		if c == nil || !c.IsInvoke() || c.Method.Name() != "Kill" || len(c.Args) < 2 {
 			return false
 		}
 		rc, ok := strip(c.Args[0]).(*ssa.Call)
 		return ok && rc.Call.IsInvoke() && rc.Call.Method.Name() == "Ref"
-	})
+	}
+	// through helpers: a call counts as the event when its callee performs it on every path; a callee that performs it
+	// only on some paths is listed in rm.condEvents (the re-arm rule reports it as undecided)
+	var rearmMay, killMay map[int]bool
+	rearm, rearmMay = p.eventNodes(g, isRearm)
+	kill, killMay = p.eventNodes(g, isKill)
+	rm.condEvents = nil
+	for n := range rearmMay {
+		if !rearm[n] {
+			rm.condEvents = append(rm.condEvents, g.Nodes[n])
+		}
+	}
+	for n := range killMay {
+		if !kill[n] {
+			rm.condEvents = append(rm.condEvents, g.Nodes[n])
+		}
+	}
 	eof, _ = callEdges(g, func(c *ssa.Call) bool {
 		if calleeQual(&c.Call) != "errors.Is" {
 			return false
@@ -437,6 +454,9 @@ func c11Rearm(p *Program, r *Report) {
 	if len(rearm) == 0 || len(kill) == 0 {
 		r.Unresolved("re-arm (TellSelf(conn)) / self-kill sites of the frame reader")
 		return
+	}
+	for _, in := range rm.condEvents {
+		r.Undecided("frame reader calls a helper that re-arms or kills on some of its paths only", in.Pos(), "the helper is neither a certain nor an impossible re-arm/kill: not summarised")
 	}
 	// every path reaches an exit only through a re-arm, a kill or the EOF edge
 	reach := g.Reach(g.entry(), union(rearm, kill), eof)
@@ -1029,7 +1049,7 @@ func c14Dropped(p *Program, r *Report) {
 					okR = false
 				}
 			}
-			if anyIn(rg.Reach([]int{e.to}, kill, eof), rg.Exits) {
+			if !kill[e.to] && anyIn(rg.Reach([]int{e.to}, kill, eof), rg.Exits) {
 				okR = false
 			}
 		}
@@ -1268,7 +1288,7 @@ func c14ConnName(p *Program, r *Report) {
 	g, _, kill, eof := p.readerEvents(rm)
 	eofKills := len(eof) > 0
 	for e := range eof {
-		if anyIn(g.Reach([]int{e.to}, kill, nil), g.Exits) {
+		if !kill[e.to] && anyIn(g.Reach([]int{e.to}, kill, nil), g.Exits) {
 			eofKills = false
 		}
 	}
